@@ -168,8 +168,8 @@ impl crate::hist::StepOracle for UpToLimitProbe {
 
 pub fn run(tier: Tier) -> Outcome {
     let worlds: &[&str] = match tier {
-        Tier::Quick => &["A"],
-        Tier::Thorough => &["A", "B", "C"],
+        Tier::Quick => &["A", "B", "C"],
+        Tier::Thorough => &["A", "B", "C", "D"],
     };
     let depth = match tier {
         Tier::Quick => 2,
